@@ -1524,9 +1524,24 @@ fn main() {
         t_exec: 0.0,
         t_model: 0.0,
     };
+    // findings recorded as fixed: the model then describes the repaired code
+    let fixed: Vec<String> = cx
+        .rep
+        .known_entries()
+        .iter()
+        .filter(|e| e.get("status").and_then(|s| s.as_str()) == Some("fixed"))
+        .filter_map(|e| e.get("id").and_then(|x| x.as_str()).map(|s| s.to_string()))
+        .collect();
     if let Some(d) = &mut cx.drv {
         let r = d.ask(&facts);
         assert_eq!(r, "ok", "driver did not accept the facts line");
+        if !fixed.is_empty() {
+            let r = d.ask(&format!("fixes {}", fixed.join(" ")));
+            assert_eq!(r, "ok", "driver did not accept the fixes line");
+        }
+    }
+    if !fixed.is_empty() {
+        cx.rep.note(format!("findings recorded as fixed (model describes the repaired code): {}", fixed.join(" ")));
     }
     let _ = &cx.facts_line;
 
